@@ -12,9 +12,12 @@ import (
 	"google.golang.org/protobuf/types/known/durationpb"
 	"google.golang.org/protobuf/types/known/fieldmaskpb"
 
+	"go.6river.tech/mmmbbb/actions"
 	"go.6river.tech/mmmbbb/grpc/pubsubpb"
+	"go.6river.tech/mmmbbb/services"
 
 	"verif/harness/evd"
+	"verif/harness/hist"
 	"verif/harness/rig"
 )
 
@@ -146,7 +149,7 @@ func TestC17(t *testing.T) {
 	col := evd.New("C17", cfg)
 	defer col.Flush()
 	n := cfg.N(200, 40000)
-	var creates, updates, fieldsChecked int64
+	var creates, updates, fieldsChecked, jobsRun int64
 	paths := []string{"labels", "expiration_policy", "message_retention_duration", "enable_message_ordering", "retry_policy", "push_config", "filter", "dead_letter_policy"}
 	for i := 0; i < n; i++ {
 		seed := cfg.CaseSeed("C17", i)
@@ -336,6 +339,38 @@ func TestC17(t *testing.T) {
 				}
 				check("get-after-update", must(e.Sub.GetSubscription(e.Ctx, &pubsubpb.GetSubscriptionRequest{Subscription: name})))
 			}
+			// the world around the subscription changes - its dead-letter topics are
+			// deleted, time passes, the maintenance jobs run - but nobody updates the
+			// subscription: it must still read back as it was written
+			if r.Intn(3) == 0 {
+				for _, tn := range []string{DL, DL2, tname} {
+					if r.Intn(3) > 0 {
+						must(e.Pub.DeleteTopic(e.Ctx, &pubsubpb.DeleteTopicRequest{Topic: tn}))
+						trace = append(trace, "delete-topic "+tn)
+						if c.dlTopic == tn {
+							// the policy stays, naming a topic that no longer exists (the
+							// API's convention for that, as for a subscription's own topic)
+							c.dlTopic = "_deleted-topic_"
+						}
+					}
+				}
+				time.Sleep([]time.Duration{time.Second, 2 * time.Hour}[r.Intn(2)])
+				for round := 0; round < 2; round++ {
+					for _, j := range r.Perm(len(hist.PruneJobs)) {
+						if _, err := services.VerifPruneRunOnce(e.Actor("job"), e.Client, hist.PruneJobs[j], actions.PruneCommonParams{MinAge: []time.Duration{0, time.Second, time.Hour}[r.Intn(3)], MaxDelete: []int{1, 100}[r.Intn(2)]}); err == nil {
+							jobsRun++
+						}
+					}
+				}
+				trace = append(trace, "maintenance jobs")
+				check("get-after-maintenance", must(e.Sub.GetSubscription(e.Ctx, &pubsubpb.GetSubscriptionRequest{Subscription: name})))
+				ls := must(e.Sub.ListSubscriptions(e.Ctx, &pubsubpb.ListSubscriptionsRequest{Project: "projects/p"}))
+				for _, s := range ls.Subscriptions {
+					if s.Name == name {
+						check("list-after-maintenance", s)
+					}
+				}
+			}
 			col.Case(evd.FP(strings.Join(trace, "|")), true)
 			if i < 2 {
 				col.Sample(map[string]any{"history": trace})
@@ -344,6 +379,7 @@ func TestC17(t *testing.T) {
 	}
 	col.Add("ev_subscriptions_created", creates)
 	col.Add("ev_masked_updates", updates)
+	col.Add("ev_maintenance_jobs_run_between_write_and_read", jobsRun)
 	col.Add("ev_response_fields_compared", fieldsChecked)
 	col.Add("relevant_events", creates+updates)
 }
